@@ -31,6 +31,9 @@ Model/LB.vos Model/LB.vok Model/LB.required_vos: Model/LB.v Base/Prelude.vos Bas
 Model/Admin.vo Model/Admin.glob Model/Admin.v.beautified Model/Admin.required_vo: Model/Admin.v Base/Prelude.vo Base/Bytes.vo Model/Strategy.vo Model/LB.vo
 Model/Admin.vio: Model/Admin.v Base/Prelude.vio Base/Bytes.vio Model/Strategy.vio Model/LB.vio
 Model/Admin.vos Model/Admin.vok Model/Admin.required_vos: Model/Admin.v Base/Prelude.vos Base/Bytes.vos Model/Strategy.vos Model/LB.vos
+Model/RespWriter.vo Model/RespWriter.glob Model/RespWriter.v.beautified Model/RespWriter.required_vo: Model/RespWriter.v Base/Prelude.vo
+Model/RespWriter.vio: Model/RespWriter.v Base/Prelude.vio
+Model/RespWriter.vos Model/RespWriter.vok Model/RespWriter.required_vos: Model/RespWriter.v Base/Prelude.vos
 Proofs/LimiterProofs.vo Proofs/LimiterProofs.glob Proofs/LimiterProofs.v.beautified Proofs/LimiterProofs.required_vo: Proofs/LimiterProofs.v Base/Prelude.vo Model/Limiter.vo
 Proofs/LimiterProofs.vio: Proofs/LimiterProofs.v Base/Prelude.vio Model/Limiter.vio
 Proofs/LimiterProofs.vos Proofs/LimiterProofs.vok Proofs/LimiterProofs.required_vos: Proofs/LimiterProofs.v Base/Prelude.vos Model/Limiter.vos
@@ -49,6 +52,9 @@ Proofs/LBProofs.vos Proofs/LBProofs.vok Proofs/LBProofs.required_vos: Proofs/LBP
 Proofs/AdminProofs.vo Proofs/AdminProofs.glob Proofs/AdminProofs.v.beautified Proofs/AdminProofs.required_vo: Proofs/AdminProofs.v Base/Prelude.vo Base/Bytes.vo Model/Strategy.vo Model/LB.vo Model/Admin.vo
 Proofs/AdminProofs.vio: Proofs/AdminProofs.v Base/Prelude.vio Base/Bytes.vio Model/Strategy.vio Model/LB.vio Model/Admin.vio
 Proofs/AdminProofs.vos Proofs/AdminProofs.vok Proofs/AdminProofs.required_vos: Proofs/AdminProofs.v Base/Prelude.vos Base/Bytes.vos Model/Strategy.vos Model/LB.vos Model/Admin.vos
+Proofs/WriterProofs.vo Proofs/WriterProofs.glob Proofs/WriterProofs.v.beautified Proofs/WriterProofs.required_vo: Proofs/WriterProofs.v Base/Prelude.vo Model/RespWriter.vo
+Proofs/WriterProofs.vio: Proofs/WriterProofs.v Base/Prelude.vio Model/RespWriter.vio
+Proofs/WriterProofs.vos Proofs/WriterProofs.vok Proofs/WriterProofs.required_vos: Proofs/WriterProofs.v Base/Prelude.vos Model/RespWriter.vos
 Cases/LimiterCase.vo Cases/LimiterCase.glob Cases/LimiterCase.v.beautified Cases/LimiterCase.required_vo: Cases/LimiterCase.v Base/Prelude.vo Model/Limiter.vo
 Cases/LimiterCase.vio: Cases/LimiterCase.v Base/Prelude.vio Model/Limiter.vio
 Cases/LimiterCase.vos Cases/LimiterCase.vok Cases/LimiterCase.required_vos: Cases/LimiterCase.v Base/Prelude.vos Model/Limiter.vos
@@ -64,6 +70,9 @@ Cases/LBCase.vos Cases/LBCase.vok Cases/LBCase.required_vos: Cases/LBCase.v Base
 Cases/AdminCase.vo Cases/AdminCase.glob Cases/AdminCase.v.beautified Cases/AdminCase.required_vo: Cases/AdminCase.v Base/Prelude.vo Base/Bytes.vo Model/Strategy.vo Model/LB.vo Model/Admin.vo
 Cases/AdminCase.vio: Cases/AdminCase.v Base/Prelude.vio Base/Bytes.vio Model/Strategy.vio Model/LB.vio Model/Admin.vio
 Cases/AdminCase.vos Cases/AdminCase.vok Cases/AdminCase.required_vos: Cases/AdminCase.v Base/Prelude.vos Base/Bytes.vos Model/Strategy.vos Model/LB.vos Model/Admin.vos
+Cases/WriterCase.vo Cases/WriterCase.glob Cases/WriterCase.v.beautified Cases/WriterCase.required_vo: Cases/WriterCase.v Base/Prelude.vo Base/Bytes.vo Model/RespWriter.vo
+Cases/WriterCase.vio: Cases/WriterCase.v Base/Prelude.vio Base/Bytes.vio Model/RespWriter.vio
+Cases/WriterCase.vos Cases/WriterCase.vok Cases/WriterCase.required_vos: Cases/WriterCase.v Base/Prelude.vos Base/Bytes.vos Model/RespWriter.vos
 Props/C09.vo Props/C09.glob Props/C09.v.beautified Props/C09.required_vo: Props/C09.v Base/Prelude.vo Model/Limiter.vo Proofs/LimiterProofs.vo
 Props/C09.vio: Props/C09.v Base/Prelude.vio Model/Limiter.vio Proofs/LimiterProofs.vio
 Props/C09.vos Props/C09.vok Props/C09.required_vos: Props/C09.v Base/Prelude.vos Model/Limiter.vos Proofs/LimiterProofs.vos
@@ -97,3 +106,9 @@ Props/C03.vos Props/C03.vok Props/C03.required_vos: Props/C03.v Base/Prelude.vos
 Props/C10.vo Props/C10.glob Props/C10.v.beautified Props/C10.required_vo: Props/C10.v Base/Prelude.vo Base/Bytes.vo Model/Strategy.vo Model/LB.vo Model/Admin.vo Proofs/AdminProofs.vo
 Props/C10.vio: Props/C10.v Base/Prelude.vio Base/Bytes.vio Model/Strategy.vio Model/LB.vio Model/Admin.vio Proofs/AdminProofs.vio
 Props/C10.vos Props/C10.vok Props/C10.required_vos: Props/C10.v Base/Prelude.vos Base/Bytes.vos Model/Strategy.vos Model/LB.vos Model/Admin.vos Proofs/AdminProofs.vos
+Props/C14.vo Props/C14.glob Props/C14.v.beautified Props/C14.required_vo: Props/C14.v Base/Prelude.vo Model/RespWriter.vo Proofs/WriterProofs.vo
+Props/C14.vio: Props/C14.v Base/Prelude.vio Model/RespWriter.vio Proofs/WriterProofs.vio
+Props/C14.vos Props/C14.vok Props/C14.required_vos: Props/C14.v Base/Prelude.vos Model/RespWriter.vos Proofs/WriterProofs.vos
+Props/C15.vo Props/C15.glob Props/C15.v.beautified Props/C15.required_vo: Props/C15.v Base/Prelude.vo Model/RespWriter.vo Proofs/WriterProofs.vo
+Props/C15.vio: Props/C15.v Base/Prelude.vio Model/RespWriter.vio Proofs/WriterProofs.vio
+Props/C15.vos Props/C15.vok Props/C15.required_vos: Props/C15.v Base/Prelude.vos Model/RespWriter.vos Proofs/WriterProofs.vos
